@@ -27,6 +27,10 @@ def gen_dag_config(rng, n=None):
             names.append(rng.choice(names) + "/sub%d" % i)          # nested: depends on its parent
         elif names and rng.random() < 0.2:
             names.append(rng.choice(names).split("/")[0] + "%d" % i)  # string-prefix sibling
+        elif rng.random() < 0.1:
+            # a long path (41..90 bytes) made mostly of 2-, 3- and 4-byte characters: wherever such a name is cut, padded or
+            # measured in bytes, the cut falls inside a character
+            names.append("wide/" + "".join(rng.choice(["\u00e9", "\u65e5", "\u672c", "\U0001F600", "\u00fc", "x"]) for _ in range(rng.randint(14, 26))) + "%d" % i)
         else:
             # mostly plain names; now and then an odd but legal one (non-ASCII, dots, upper case).  No blanks: -t/-c/-s values are
             # blank-delimited by design (clap value_delimiter), so such a target cannot be named on the command line
@@ -61,14 +65,18 @@ def run_case(ctx, rng, focus, forced=None):
     if not expected_cmds: cmds = ["build"]; expected_cmds = ["build"]
     plain = bool(forced and forced.get("plain"))      # one command, everything defined and succeeding
     if plain: seqs, cmds, expected_cmds = [], ["build"], ["build"]
+    if forced and forced.get("only_cmds"): seqs, cmds, expected_cmds = [], list(forced["only_cmds"]), list(forced["only_cmds"])
     mode = rng.choice(["all", "changed", "explicit", "deps", "deps"] if focus != "C05" else ["all", "changed", "explicit", "deps", "deps", "deps"])
     if forced: mode = forced["mode"]
     fou = rng.random() < 0.4
+    if forced and "fou" in forced: fou = forced["fou"]
     kinds = {}
     for c in CMDS:
         for p in paths:
             r = rng.random()
-            kinds[(c, p)] = "exec" if plain else "undef" if r < 0.1 else "noexec" if r < 0.13 else "noexec_link" if r < 0.16 else "exec"
+            kinds[(c, p)] = "exec" if plain else "undef" if r < 0.1 else "noexec" if r < 0.13 else "noexec_link" if r < 0.16 else "noexec_format" if r < 0.18 else "noexec_interp" if r < 0.2 else "exec"
+    if forced and forced.get("kinds"):
+        for k, v in forced["kinds"].items(): kinds[tuple(k.split("|", 1))] = v
     rr = runscen.RunRepo(ctx, cfg, kinds=kinds, commands=CMDS)
     try:
         args = []
@@ -104,9 +112,12 @@ def run_case(ctx, rng, focus, forced=None):
         maxd = max(depth.values()) if depth else 0
         # script: run times and exit codes
         timing = rng.choice(["deps_slower", "deps_slower", "random", "zero"])
+        if forced and forced.get("timing"): timing = forced["timing"]
         script = {"*": {}}
         fail_at = set()
-        if rng.random() < (0.75 if focus == "C06" else 0.35) and not plain:
+        if forced and "fail_at" in forced:
+            fail_at = set(tuple(x) for x in forced["fail_at"])
+        elif rng.random() < (0.75 if focus == "C06" else 0.35) and not plain:
             for _ in range(rng.choice([1, 1, 2])):
                 fail_at.add((rng.choice(expected_cmds), rng.choice(selected) if selected else None))
         codes = {}
@@ -189,7 +200,7 @@ def evaluate(ctx, focus, case, cfg, rr, rc, out, err, traces, expected_cmds, sel
             members = sorted(g.keys(), key=lambda t: (order_in.get(t, 0), t))
             defs = []
             for ki, t in enumerate(members):
-                defs.append({"exec": 0, "undef": 1, "noexec": 2, "noexec_link": 2}[kinds.get((cmd, t), "exec")])
+                defs.append({"exec": 0, "undef": 1}.get(kinds.get((cmd, t), "exec"), 2))
                 task_of[(cmd, t)] = (ci, gi, ki)
                 st, code = g[t]
                 impl_res.append([[ci, gi, ki], [STATUS.get(st, 9), [] if code is None else [code]]])
@@ -255,7 +266,7 @@ def evaluate(ctx, focus, case, cfg, rr, rc, out, err, traces, expected_cmds, sel
             if n > 1: problems.append({"started_more_than_once": [c, t, n]})
             if k == "undef" and n != 0: problems.append({"undefined_started": [c, t]})
             if k == "exec" and st != "skipped" and n != 1: problems.append({"defined_not_started": [c, t, st, n]})
-            if k in ("noexec", "noexec_link") and n != 0: problems.append({"not_executable_started": [c, t, k]})
+            if k.startswith("noexec") and n != 0: problems.append({"not_executable_started": [c, t, k]})
             if st == "skipped" and n != 0: problems.append({"skipped_started": [c, t]})
         extra = [k for k in started if k not in task_of]
         if extra: problems.append({"started_outside_plan": extra[:5]})
@@ -322,9 +333,35 @@ def run(ctx, scale, focus):
         long_cfg = {"targets": [{"path": "slowlib"}, {"path": "app", "uses": ["slowlib"]}, {"path": "tool"}], "sequences": SEQS}
         for ms in ([21500] if ctx.quick() else [21500, 31000, 61000]):
             run_case(ctx, random.Random(ctx.rng.getrandbits(32)), focus, forced={"cfg": long_cfg, "mode": "all", "named": [], "sleep_ms": {"build|slowlib": ms, "lint|slowlib": 0, "test|slowlib": 0}, "plain": True})
+    if focus == "C04":
+        # a chain whose target paths are long and multi-byte throughout (every byte length from 41 up, so that any fixed byte offset
+        # falls inside a character for some of them): the order must hold for them as for any other name
+        for rep in range(1 if ctx.quick() else 6):
+            r0 = random.Random(ctx.rng.getrandbits(32))
+            def wname(i): return "wide/" + "".join(r0.choice(["\u00e9", "\u65e5", "\u672c", "\U0001F600", "\u00fc"]) for _ in range(r0.randint(12, 22))) + "x" * (i % 4) + "%d" % i
+            nm = [wname(i) for i in range(5)]
+            wcfg = {"targets": [{"path": nm[0]}] + [{"path": nm[i], "uses": [nm[i - 1]] + ([nm[0]] if i > 1 and r0.random() < 0.5 else [])} for i in range(1, 4)] + [{"path": nm[4], "uses": [nm[1]]}], "sequences": SEQS}
+            r0.shuffle(wcfg["targets"])
+            cs = r0.getrandbits(32)
+            run_case(ctx, random.Random(cs), focus, forced={"case_seed": cs, "cfg": wcfg, "mode": "all", "named": [], "timing": "deps_slower"})
+            ctx.count("long_multibyte_chain")
     if focus == "C06":
         for point, ms in (("compressor_between_shutdowns", 40), ("compressor_before_join", 60), ("compressor_between_shutdowns", 5)) * (1 if ctx.quick() else 8):
             forced_delay_case(ctx, ctx.rng, point, ms, ctx.rng.choice([3, 4, 5]))
+    if focus == "C06":
+        # wide groups in which entries that start no process (undefined, not executable) sit BEFORE entries that do: every status must
+        # still be reported under the name of the target it belongs to (the failing one, the succeeding ones, the ones never started)
+        for rep in range(3 if ctx.quick() else 24):
+            r0 = random.Random(ctx.rng.getrandbits(32))
+            nw = r0.randint(4, 7)
+            cfgw = {"targets": [{"path": "w%d" % i} for i in range(nw)] + ([{"path": "top", "uses": ["w0", "w%d" % (nw - 1)]}] if r0.random() < 0.5 else []), "sequences": SEQS}
+            holes = r0.sample(range(nw - 1), r0.randint(1, 2))
+            kindsw = {"build|w%d" % i: r0.choice(["undef", "undef", "undef"]) for i in holes}
+            later = [i for i in range(nw) if i > min(holes) and i not in holes]
+            fa = [["build", "w%d" % r0.choice(later)]] if later and r0.random() < 0.6 else []
+            cs = r0.getrandbits(32)
+            run_case(ctx, random.Random(cs), focus, forced={"case_seed": cs, "cfg": cfgw, "mode": "all", "named": [], "kinds": kindsw, "fou": False, "fail_at": fa, "only_cmds": ["build"] if r0.random() < 0.5 else ["build", "test"]})
+            ctx.count("undefined_before_defined_in_group")
     if focus == "C05":
         # every single named target with --deps on layered graphs with shared dependencies and a tail beneath them
         for rep in range(2 if ctx.quick() else 12):
@@ -343,6 +380,6 @@ def run(ctx, scale, focus):
 
 def replay(ctx, case, focus):
     c = case.get("case", case)
-    if "forced" in c: run_case(ctx, random.Random(c.get("case_seed", ctx.seed)), focus, forced=c["forced"])
+    if "forced" in c: run_case(ctx, random.Random(c.get("case_seed", c["forced"].get("case_seed", ctx.seed))), focus, forced=c["forced"])
     elif "case_seed" in c: run_case(ctx, random.Random(c["case_seed"]), focus)
     return {"spec_failures": [d for _, d in ctx.spec_failures][:3], "disagreements": [d for _, d in ctx.tie_breaks][:3]}
